@@ -16,10 +16,12 @@ structure CertValid (net : Nat) (t : Table) (next : Nat) (base : Option Tip) (c 
   chain_nonempty : c.chain ≠ []
   /-- it starts at the required base -/
   linked : ∀ b, base = some b → ∃ h, c.chain.head? = some h ∧ Tip.eq b h = true
-  /-- its signers are members of `t` with non-zero scaled power, together hold at least two thirds
-  of the scaled total, and the signature is their aggregate over exactly the DECIDE payload of
-  `(instance, round 0, supplemental data, chain)` on this network -/
+  /-- its signers are DISTINCT members of `t` (the list of their table indices is strictly increasing:
+  it is the iteration of a bitfield, nobody is counted twice) with non-zero scaled power, together
+  hold at least two thirds of the scaled total, and the signature is their aggregate over exactly the
+  DECIDE payload of `(instance, round 0, supplemental data, chain)` on this network -/
   signed : ∃ sc tot ss, F3.Power.scaled (t.map (·.power)) = some (sc, tot) ∧ c.signers = some ss ∧
+    ss.Pairwise (· < ·) ∧
     (∀ i ∈ ss, i < t.length ∧ 0 < sc.getD i 0) ∧
     3 * sumScaled sc ss ≥ 2 * (tot : Int) ∧
     c.sig = .agg (ss.map (fun i => (i, keyAt t i))) ⟨net, c.inst, 0, decidePhase, c.comm, c.pt, c.chain⟩
